@@ -417,4 +417,50 @@ theorem interval_decision_sound (x y lo1 hi1 lo2 hi2 : Rat) (hx : lo1 ≤ x ∧ 
 example : (1 : Rat) ≠ 3 := (interval_decision_sound 1 3 (1/2) (3/2) (5/2) (7/2) (by decide +kernel) (by decide +kernel)).2.2
   (Or.inl (by decide +kernel))
 
+/-- The six accept conditions of `eval_inequality_expr` (fixes/C05-2) are pinned in the model
+(`intervalAccept`, tied to the Python by the `interval-decision` correspondence stream): whenever the
+bounds enclose the two values and the condition holds, the accepted relation is true. -/
+theorem interval_accept_sound (r : Rel) (x y lo1 hi1 lo2 hi2 : Rat)
+    (hx : lo1 ≤ x ∧ x ≤ hi1) (hy : lo2 ≤ y ∧ y ≤ hi2) :
+    intervalAccept r lo1 hi1 lo2 hi2 = true → r.holds x y := by
+  rcases r with _ | _ | op
+  · simp only [intervalAccept, Rel.holds, Bool.and_eq_true, beq_iff_eq]; grind
+  · simp only [intervalAccept, Rel.holds, Bool.or_eq_true, decide_eq_true_eq]; grind
+  · cases op <;> simp only [intervalAccept, Rel.holds, decide_eq_true_eq] <;> grind
+
+example : intervalAccept (.cmp .le) 1 2 2 3 = true ∧ intervalAccept (.cmp .le) 1 2 (3/2) 3 = false := by decide +kernel
+
+/-- ... and none of the six conditions can be relaxed: if the condition fails there are values inside
+the enclosures for which the relation is false (so accepting `a ≤ b` when the enclosures merely
+overlap, or an equality between inexact sides, asserts something the bounds do not justify). -/
+theorem interval_accept_tight (r : Rel) (lo1 hi1 lo2 hi2 : Rat) (h1 : lo1 ≤ hi1) (h2 : lo2 ≤ hi2) :
+    intervalAccept r lo1 hi1 lo2 hi2 = false →
+      ∃ x y, (lo1 ≤ x ∧ x ≤ hi1) ∧ (lo2 ≤ y ∧ y ≤ hi2) ∧ ¬ r.holds x y := by
+  intro h
+  rcases r with _ | _ | op
+  · simp only [intervalAccept, Rel.holds] at h ⊢
+    by_cases e1 : lo1 = hi1
+    · by_cases e2 : lo2 = hi2
+      · refine ⟨lo1, lo2, ⟨Rat.le_refl, h1⟩, ⟨Rat.le_refl, h2⟩, ?_⟩
+        intro e; simp [e1, e2] at h; grind
+      · by_cases e3 : lo1 = lo2
+        · exact ⟨lo1, hi2, ⟨Rat.le_refl, h1⟩, ⟨h2, Rat.le_refl⟩, by grind⟩
+        · exact ⟨lo1, lo2, ⟨Rat.le_refl, h1⟩, ⟨Rat.le_refl, h2⟩, e3⟩
+    · by_cases e3 : lo1 = lo2
+      · exact ⟨hi1, lo2, ⟨h1, Rat.le_refl⟩, ⟨Rat.le_refl, h2⟩, by grind⟩
+      · exact ⟨lo1, lo2, ⟨Rat.le_refl, h1⟩, ⟨Rat.le_refl, h2⟩, e3⟩
+  · simp only [intervalAccept, Rel.holds, Bool.or_eq_false_iff, decide_eq_false_iff_not] at h ⊢
+    -- the enclosures overlap: a common point
+    by_cases c : lo1 ≤ lo2
+    · exact ⟨lo2, lo2, ⟨c, by grind⟩, ⟨Rat.le_refl, h2⟩, by simp⟩
+    · exact ⟨lo1, lo1, ⟨Rat.le_refl, h1⟩, ⟨by grind, by grind⟩, by simp⟩
+  · cases op <;> simp only [intervalAccept, Rel.holds, decide_eq_false_iff_not] at h ⊢
+    · exact ⟨hi1, lo2, ⟨h1, Rat.le_refl⟩, ⟨Rat.le_refl, h2⟩, h⟩
+    · exact ⟨hi1, lo2, ⟨h1, Rat.le_refl⟩, ⟨Rat.le_refl, h2⟩, h⟩
+    · exact ⟨lo1, hi2, ⟨Rat.le_refl, h1⟩, ⟨h2, Rat.le_refl⟩, h⟩
+    · exact ⟨lo1, hi2, ⟨Rat.le_refl, h1⟩, ⟨h2, Rat.le_refl⟩, h⟩
+
+example : ∃ x y : Rat, (1 ≤ x ∧ x ≤ 2) ∧ ((3/2 : Rat) ≤ y ∧ y ≤ 3) ∧ ¬ (Rel.cmp .le).holds x y :=
+  interval_accept_tight (.cmp .le) 1 2 (3/2) 3 (by decide +kernel) (by decide +kernel) (by decide +kernel)
+
 end Holpy.C05
